@@ -421,14 +421,30 @@ impl Sys {
             }
             k => panic!("op {k}"),
         };
+        // mint / burn / transfer events emitted by the token in this invocation
+        let conv = |v: i128| jint(v);
+        let mut evs: Vec<Value> = Vec::new();
+        if !matches!(kind, "set_id" | "set_ct" | "set_cc" | "set_rec") {
+            for (topics, data) in events_of(e, &self.names, &self.tok, &conv) {
+                let k = topics.first().and_then(|v| v.as_str()).unwrap_or("?").to_string();
+                let g = |i: usize| topics.get(i).cloned().unwrap_or(json!("none"));
+                let x = data.get("amount").cloned().unwrap_or(json!(0));
+                match k.as_str() {
+                    "transfer" => evs.push(json!({"k": "transfer", "f": g(1), "t": g(2), "x": x})),
+                    "mint" => evs.push(json!({"k": "mint", "f": "none", "t": g(1), "x": x})),
+                    "burn" => evs.push(json!({"k": "burn", "f": g(1), "t": "none", "x": x})),
+                    _ => {}
+                }
+            }
+        }
         let calls = self.calls();
-        json!({"op": op, "now": now, "res": res, "err": code, "ret": ret, "obs": self.obs(), "calls": calls})
+        json!({"op": op, "now": now, "res": res, "err": code, "ret": ret, "obs": self.obs(), "calls": calls, "evs": evs})
     }
 }
 
 fn reset_event(sys: &Sys) -> Value {
     json!({"op": {"op": "reset", "accts": sys.accts}, "now": seq(&sys.e), "res": "ok", "err": 0, "ret": "-",
-           "obs": sys.obs(), "calls": []})
+           "obs": sys.obs(), "calls": [], "evs": []})
 }
 
 fn mkop(k: &str, from: &str, to: &str, sp: &str, amt: i64, flag: bool, until: i64, auth: Vec<String>, dt: i64) -> Value {
